@@ -76,6 +76,13 @@ class Ctx:
         os.makedirs(os.path.join(VERIF, 'evidence', 'replay'), exist_ok=True)
 
     def _cleanup(self):
+        # diagnostic aid (never set by the registered commands): keep the coverage data of an instrumented snapshot
+        cov = os.environ.get('VERIF_COV_OUT')
+        if cov and getattr(self, 'snap', None):
+            try:
+                shutil.copytree(self.snap, os.path.join(cov, self.pid), dirs_exist_ok=True)
+            except Exception:
+                pass
         shutil.rmtree(self.tmp, ignore_errors=True)
 
     def log(self, *a):
@@ -92,7 +99,9 @@ class Ctx:
             sh('./configure', cwd=d, check=True)
         if build:
             fl = cflags + (' -D' + GUARD if hooks else '')
-            rc, out, err = sh('make -j%d CFLAGS="%s" %s' % (NCPU, fl, targets), cwd=d, timeout=600)
+            extra = os.environ.get('VERIF_EXTRA_CFLAGS', '')        # diagnostic aid, e.g. --coverage (never set by the registered commands)
+            rc, out, err = sh('make -j%d CFLAGS="%s %s" LDFLAGS="%s" %s' % (NCPU, fl, extra, extra, targets) if extra
+                              else 'make -j%d CFLAGS="%s" %s' % (NCPU, fl, targets), cwd=d, timeout=600)
             if rc != 0:
                 self.broken('build', 'snapshot-build', 'the working tree of /repo does not build:\n' + txt(err)[-3000:])
                 return None
